@@ -338,7 +338,7 @@ def run_pool(jobs, nproc=16, hard_timeout=30):
     return results
 
 
-def discharge(vcs, axioms, budget_s=10, nproc=16, pins=None, want=None, retry_factor=6):
+def discharge(vcs, axioms, budget_s=10, nproc=16, pins=None, want=None, retry_factor=4):
     """pass 1: every VC with the normal budget; pass 2: the undecided ones again with retry_factor x budget
     (exact query first), so that slow-but-provable obligations do not flip under load"""
     jobs = []
@@ -347,6 +347,12 @@ def discharge(vcs, axioms, budget_s=10, nproc=16, pins=None, want=None, retry_fa
     res = run_pool(jobs, nproc=nproc, hard_timeout=budget_s * 1.5 + 5)
     out = [res[k] for k in range(len(vcs))]
     again = [k for k, r in enumerate(out) if r.get('status') not in ('unsat', 'sat')]
+    if any(r.get('status') == 'sat' for r in out):
+        again = []          # something is already definitely refuted: the verdict does not hinge on the slow ones
+    if len(again) > 8:
+        # widespread failure (changed code / broken contract): retry only a few, the verdict will not hinge on them
+        again = again[:8]
+        retry_factor = min(retry_factor, 3)
     if again and retry_factor > 1:
         b2 = budget_s * retry_factor
         jobs = [(k, (lambda vc=vcs[k]: decide(axioms, vc, b2, pins, want, strategies=('z3', 'inst2', 'inst3')))) for k in again]
